@@ -900,6 +900,11 @@ def raised_error_classes(F, fn, depth=0):
             g = F.fn(t["f"])
             if g is not None:
                 out |= raised_error_classes(F, g, depth + 1)
+        elif "<impl laythe_vm::vm::Vm>" in t["f"] and not n.startswith("op_") and n not in ("resolve_call", "call", "call_closure", "call_native", "call_class", "call_method", "execute", "run_fun", "run_method"):
+            # a dispatch helper the handler delegates to (invoke -> invoke_from_class): what it can raise, the handler can raise
+            g = F.fn(t["f"])
+            if g is not None and g.path != fn.path:
+                out |= raised_error_classes(F, g, depth + 1)
     return out
 
 
